@@ -54,3 +54,29 @@ Proof. vm_compute. reflexivity. Qed.
 
 Lemma protein_ok : abc_ok protein = true.
 Proof. vm_compute. reflexivity. Qed.
+
+(* ---------- NEON kernel (arm / aarch64; modelled, pinned textually, never run here) ---------- *)
+
+Definition abc_ok_neon (A : abc) : bool := abc_ok A && lanes_ok neon_params A.
+
+Lemma neon_into_correct A : abc_ok_neon A = true -> into_correct A (encode_into_neon A).
+Proof.
+  unfold abc_ok_neon. intros H. apply andb_true_iff in H. destruct H as [H HN].
+  pose proof (abc_ok_tables A H) as T.
+  assert (HK : a_K A <= length (a_str A)) by (rewrite (tc_len A T); lia).
+  apply simd_into_correct; auto. simpl; lia.
+Qed.
+
+Lemma neon_raw_spec A junk s : abc_ok_neon A = true ->
+  encode_raw (encode_into_neon A) junk s = encode_spec A s.
+Proof.
+  intros H. rewrite (encode_raw_correct A _ junk s (neon_into_correct A H)).
+  unfold abc_ok_neon in H. apply andb_true_iff in H. destruct H as [H _].
+  apply enc_tab_spec. apply (tc_spec A (abc_ok_tables A H)).
+Qed.
+
+Lemma dna_ok_neon : abc_ok_neon dna = true.
+Proof. vm_compute. reflexivity. Qed.
+
+Lemma protein_ok_neon : abc_ok_neon protein = true.
+Proof. vm_compute. reflexivity. Qed.
